@@ -74,6 +74,27 @@ pub broadcast proof fn ax_fl_div(a: real, b: real)
 pub broadcast proof fn ax_fl_add_zero(a: real) ensures #[trigger] fl_add(a, 0real) == a {}
 pub broadcast group A_float { ax_fl_sub, ax_fl_mul, ax_fl_div, ax_fl_add_zero }
 
+// the same standard model in "(1+delta)" form: fl(a op b) = (a op b)(1 + d) + e, |d| <= u, |e| <= eta (e = 0 for + and -)
+pub uninterp spec fn del_add(a: real, b: real) -> real;
+pub uninterp spec fn del_sub(a: real, b: real) -> real;
+pub uninterp spec fn del_mul(a: real, b: real) -> real;
+pub uninterp spec fn del_div(a: real, b: real) -> real;
+pub uninterp spec fn und_mul(a: real, b: real) -> real;
+pub uninterp spec fn und_div(a: real, b: real) -> real;
+#[verifier::external_body]
+pub proof fn ax_rel_add(a: real, b: real)
+    ensures fl_add(a, b) == (a + b) * (1real + del_add(a, b)), -uu() <= del_add(a, b) <= uu() {}
+#[verifier::external_body]
+pub proof fn ax_rel_sub(a: real, b: real)
+    ensures fl_sub(a, b) == (a - b) * (1real + del_sub(a, b)), -uu() <= del_sub(a, b) <= uu() {}
+#[verifier::external_body]
+pub proof fn ax_rel_mul(a: real, b: real)
+    ensures fl_mul(a, b) == (a * b) * (1real + del_mul(a, b)) + und_mul(a, b), -uu() <= del_mul(a, b) <= uu(), -eta() <= und_mul(a, b) <= eta() {}
+#[verifier::external_body]
+pub proof fn ax_rel_div(a: real, b: real)
+    requires b != 0real
+    ensures fl_div(a, b) == (a / b) * (1real + del_div(a, b)) + und_div(a, b), -uu() <= del_div(a, b) <= uu(), -eta() <= und_div(a, b) <= eta() {}
+
 // truncation toward zero used by NumCast float -> usize
 pub uninterp spec fn trunc(x: real) -> int;
 #[verifier::external_body]
